@@ -34,7 +34,15 @@ pub(crate) trait CKKSPow2Default<BE: Backend> {
         Scratch<BE>: ScratchTakeCore<BE>,
     {
         let offset = dst.offset_unary(src);
-        self.glwe_lsh(dst, src, bits + offset, scratch);
+        // `bits` is caller-supplied: a shift that does not even fit a usize cannot be served.
+        let shift = bits
+            .checked_add(offset)
+            .ok_or(crate::CKKSCompositionError::InsufficientHomomorphicCapacity {
+                op: "mul_pow2",
+                available_log_budget: src.log_budget(),
+                required_bits: usize::MAX,
+            })?;
+        self.glwe_lsh(dst, src, shift, scratch);
         dst.meta = src.meta();
         dst.meta.log_budget = checked_log_budget_sub("mul_pow2", dst.log_budget(), offset)?;
         Ok(())
@@ -66,9 +74,17 @@ pub(crate) trait CKKSPow2Default<BE: Backend> {
         Scratch<BE>: ScratchTakeCore<BE>,
     {
         let offset = dst.offset_unary(src);
+        // `bits` is caller-supplied: a division that does not even fit a usize exceeds any budget.
+        let required = bits
+            .checked_add(offset)
+            .ok_or(crate::CKKSCompositionError::InsufficientHomomorphicCapacity {
+                op: "div_pow2",
+                available_log_budget: src.log_budget(),
+                required_bits: usize::MAX,
+            })?;
         self.glwe_lsh(dst, src, offset, scratch);
         dst.meta = src.meta();
-        dst.meta.log_budget = checked_log_budget_sub("div_pow2", dst.log_budget(), bits + offset)?;
+        dst.meta.log_budget = checked_log_budget_sub("div_pow2", dst.log_budget(), required)?;
         dst.meta.log_delta += bits;
         Ok(())
     }
